@@ -32,6 +32,14 @@ func (e *ExitError) Error() string {
 	return fmt.Sprintf("project non-zero exit code: %d", e.Code)
 }
 
+// procStateLocks guard one ProcessState object. The object outlives the
+// instances (Process) of a process and is handed from one to the next, so
+// its locks cannot live in the instance.
+type procStateLocks struct {
+	state sync.Mutex
+	conf  sync.Mutex
+}
+
 type ProjectRunner struct {
 	procConfMutex     sync.Mutex
 	project           *types.Project
@@ -39,6 +47,7 @@ type ProjectRunner struct {
 	processLogs       map[string]*pclog.ProcessLogBuffer
 	statesMutex       sync.Mutex
 	processStates     map[string]*types.ProcessState
+	processStateLocks map[string]*procStateLocks
 	runProcMutex      sync.Mutex
 	startMutex        sync.Mutex
 	shutDownMutex     sync.Mutex
@@ -205,6 +214,7 @@ func (p *ProjectRunner) runProcess(config *types.ProcessConfig) {
 		withLogger(procLogger),
 		withProcConf(config),
 		withProcState(procState),
+		withProcStateLocks(p.getProcessStateLocks(config.ReplicaName)),
 		withProcLog(procLog),
 		withShellConfig(*p.project.ShellConfig),
 		withPrintLogs(printLogs),
@@ -329,9 +339,24 @@ func (p *ProjectRunner) initProcessStates() {
 	p.statesMutex.Lock()
 	defer p.statesMutex.Unlock()
 	p.processStates = make(map[string]*types.ProcessState)
+	p.processStateLocks = make(map[string]*procStateLocks)
 	for name, proc := range p.project.Processes {
 		p.processStates[name] = types.NewProcessState(&proc)
 	}
+}
+
+func (p *ProjectRunner) getProcessStateLocks(name string) *procStateLocks {
+	p.statesMutex.Lock()
+	defer p.statesMutex.Unlock()
+	if p.processStateLocks == nil {
+		p.processStateLocks = make(map[string]*procStateLocks)
+	}
+	locks, ok := p.processStateLocks[name]
+	if !ok {
+		locks = &procStateLocks{}
+		p.processStateLocks[name] = locks
+	}
+	return locks
 }
 
 func (p *ProjectRunner) initProcessLogs() {
@@ -353,12 +378,17 @@ func (p *ProjectRunner) GetProcessState(name string) (*types.ProcessState, error
 		return proc.getState(), nil
 	} else {
 		p.statesMutex.Lock()
-		defer p.statesMutex.Unlock()
 		state, ok := p.processStates[name]
+		p.statesMutex.Unlock()
 		if !ok {
 			log.Error().Msgf("Error: process %s doesn't exist", name)
 			return nil, fmt.Errorf("can't get state of process %s: no such process", name)
 		}
+		locks := p.getProcessStateLocks(name)
+		locks.state.Lock()
+		defer locks.state.Unlock()
+		locks.conf.Lock()
+		defer locks.conf.Unlock()
 		stateCopy := *state
 		return &stateCopy, nil
 	}
@@ -910,11 +940,16 @@ func (p *ProjectRunner) renameProcess(name string, newName string) {
 	}
 	state := p.getProcessStatePtr(name)
 	if state != nil {
+		locks := p.getProcessStateLocks(name)
+		locks.state.Lock()
+		state.Name = newName
+		locks.state.Unlock()
 		p.statesMutex.Lock()
 		defer p.statesMutex.Unlock()
 		delete(p.processStates, name)
-		state.Name = newName
+		delete(p.processStateLocks, name)
 		p.processStates[newName] = state
+		p.processStateLocks[newName] = locks
 	}
 	p.procConfMutex.Lock()
 	procConf, ok := p.project.Processes[name]
@@ -957,6 +992,10 @@ func (p *ProjectRunner) removeProcess(name string) error {
 func (p *ProjectRunner) addProcessAndRun(proc types.ProcessConfig) {
 	p.statesMutex.Lock()
 	p.processStates[proc.ReplicaName] = types.NewProcessState(&proc)
+	if p.processStateLocks != nil {
+		// a new state object gets its own locks
+		delete(p.processStateLocks, proc.ReplicaName)
+	}
 	p.statesMutex.Unlock()
 	p.setProcessConfig(proc)
 	p.initProcessLog(proc.ReplicaName)
